@@ -19,6 +19,7 @@ from vlib.engine import Case
 from . import e2e, geomgen as G
 
 EXE = "robust_main"
+MODEL_MAX_DECLARED = 60000
 CAP = 16 << 20              # requests above this are refused by the monitor (bad_alloc), see notes/robust.md
 
 # ---- C18 bound:  single request <= A + K * (len + declared);  peak of live bytes <= PA + PK * (len + declared) * (1 + atts)
@@ -422,6 +423,9 @@ def _strip_templates(name):
     return "".join(out)
 
 
+SITE_SKIP = ("draco::DataBuffer::", "draco::PointAttribute::Reset", "draco::GeometryAttribute::", "draco::IndexTypeVector")
+
+
 def sig_of(kind, site):
     """one defect = one signature: the kd-tree decoder's stacks are reported as `peak:` whichever limit trips first"""
     if site == "draco::DynamicIntegerPointsKdTreeDecoder::DynamicIntegerPointsKdTreeDecoder":
@@ -442,6 +446,8 @@ def site_of(bt, flavour):
     for line in out.split("\n")[::2]:
         if line.startswith("draco::"):
             name = _strip_templates(line.split("(")[0]).replace(" ", "")
+            if name.startswith(SITE_SKIP):
+                continue        # generic containers: the caller is the site
             return name
     return "?"
 
@@ -594,6 +600,10 @@ def make_case(data, skip, flavour, oracles, tags, with_model=True, cap=CAP):
     def model(hout):
         # a stream on which the allocation cap stopped the implementation is not given to the model (no cap there)
         if hout is None or hout.startswith("CRASH") or " refused=0 refusedlive=0 " not in hout:
+            return None
+        # the list-based model needs ~15 µs per declared element: correspondence is checked up to MODEL_MAX_DECLARED
+        m = re.search(r" declared=(\d+) declkf=(\d+) ", hout)
+        if m and max(int(m.group(1)), int(m.group(2))) > MODEL_MAX_DECLARED:
             return None
         return f"rdec {skip} {hx}"
     c = Case(op, model=(model if with_model else False), expect=expect_model, oracle=oracle,
